@@ -216,6 +216,25 @@ def run_batch(cases):
         res['flatdictn'] = await call(ev.event_results_flat_dict, lambda d: enc(d, evmap, excmap), raise_if_conflicts=case['rc'])
         res['flatlist'] = await call(ev.event_results_flat_list, lambda l: enc(l, evmap, excmap))
         res['recorded'] = ','.join(recorded)
+        # "pure views": reading the results changes nothing of them - the recorded results, and what the first accessor returns,
+        # are the same after every accessor has been called once (the flat views last)
+        recorded2 = []
+        for i, r in enumerate(list(ev.event_results.values())):
+            errs = '-'
+            if r.error is not None:
+                k = excmap.get(id(r.error), 999)
+                errs = 'validation' if k >= 1000 else f'handler{k}'
+            recorded2.append(f'{i}:{r.status}:{enc(r.result, evmap, excmap)}:{errs}')
+        again = await call(ev.event_results_list, lambda l: ','.join(enc(x, evmap, excmap) for x in l))
+        flat2 = await call(ev.event_results_flat_list, lambda l: enc(l, evmap, excmap))
+        impure = []
+        if recorded2 != recorded:
+            impure.append(f'recorded results before [{",".join(recorded)}] after [{",".join(recorded2)}]')
+        if again != res['list']:
+            impure.append(f'event_results_list() first [{res["list"]}] later [{again}]')
+        if flat2 != res['flatlist']:
+            impure.append(f'event_results_flat_list() first [{res["flatlist"]}] second [{flat2}]')
+        res['_impure'] = ' | '.join(impure)
         typed = 0 if T is None else 1
         line = f"T results {ci} {typed} {incl} {int(case['ra'])} {int(case['rn'])} {int(case['rc'])} {','.join(specs) or '-'}"
         return line, res
@@ -339,8 +358,11 @@ def decide(prop, tier, seed, gate, my_thms, known, t0, replay):
         if m is None:
             diverged.append((case, ['no model output']))
             continue
+        impure = real.pop('_impure', '')
         diffs = [f'{k}: real [{real[k]}] model [{m.get(k)}]' for k in real if real[k] != m.get(k)]
         own = typed_clause_violations(case, real)
+        if impure:
+            own.append('the accessors are not pure views - calling them changed what is recorded / what they return: ' + impure)
         stats['type_' + case['type']] += 1
         stats['decl_' + case.get('decl', 'inst')] += 1
         for k in ('list', 'flatdict'):
